@@ -46,6 +46,10 @@ CHECKS["C06"] = dict(level="model_checking", engine="tlc-trace",
    technique="trace validation against MipTrace.tla, whose state is the problem data only; every answer recomputed by brute force (vertex enumeration + integer-box enumeration)",
    text="TLC-generated incremental histories (constraints, boxes, new dimensions, new integer variables, objective / direction / pricing changes, copies, dump-load, interleaved with solve, is_satisfiable, feasible/optimizing point, optimal value, evaluate) are executed on MIP_Problem; the specification keeps just the data and requires after every observer the status, optimum, feasibility and integrality of the witness, and the documented exceptions, that the data dictates - hence incremental and fresh problems with equal data must agree.",
    note="Trusted: TLC, GensOf, harness/mip.cc. Bounds: <= 3 variables, <= 9 constraints, |coeff| <= 4; problems whose relaxation is unbounded in an integer direction are undecided. Known findings: non-termination of branch-and-bound, invalid state after adding integer variables to a solved problem.", ref="§5 C06")
+CHECKS["C07"] = dict(level="model_checking", engine="tlc-trace",
+   technique="each logged solution tree is evaluated by PipTrace.tla (floor-division artificial parameters, decision nodes) on every parameter valuation in 0..4 and compared with the brute-force lexicographic minimum",
+   text="Seeded random parametric integer programs under all six strategy settings are solved fresh and after incremental modifications; the specification itself interprets the returned tree for each parameter valuation satisfying the context and requires a feasible, non-negative, lexicographically minimal integer point, or bottom exactly when none exists, and trees that only use declared artificial parameters. Every rejection carries a concrete integer witness.",
+   note="Trusted: TLC, the tree logger harness/pip.cc. Bounds: <= 3 variables, <= 3 parameters, parameter values 0..4, search box 0..7, |coeff| <= 3. The big-parameter clause is not covered. Known findings: wrong bottom on fresh problems (one family), and the incremental re-solve path (all verdict kinds).", ref="§5 C07")
 NOT_YET = {}
 
 
